@@ -119,6 +119,7 @@ class C05(Check):
         "8 rows. For each: AGP round trip (objects and bytes); TPF round trip and AGP->TPF->AGP when in the TPF domain; rows == data lines. "
         "Corruptions: every single-column deletion and 12 token substitutions on every data line of S2/S3 texts: parse raises or keeps the row count. "
         "CLI: asm-format on S2 texts (stdin and file, AGP<->TPF). non-trivial = assembly with a gap, a tag, a non-plain name or a coordinate >= 10^12, or any corruption case"
+        " Names with inner / leading / trailing blanks, header with trailing blank; expectations come from the case description, never from library objects; long assemblies of 16384 / 16385 / 40000 / 70001 rows."
     )
     assumptions = [
         "domain as the statement gives it: names without tab/newline (inner, leading and trailing blanks are in scope), non-empty, neighbouring scaffold names distinct; tags without trailing blanks (last column); header lines not starting with '#' or blank",
